@@ -64,6 +64,6 @@ MANIFEST = {
             "(C13) ties the item-level semantics to the implementation model of Assembler::push / backpatch / emit.",
     "note": "Trusted: Lean kernel; Asm/Assemble.lean (model of asm.rs as repaired) tied to etk-asm by the differential run on layout-"
             "sensitive programs and by the independent probe/sentinel decoding; scopes (includes) apply the theorem per scope; "
-            "parsing (pest interpreter over the regenerated grammar + Asm/Parse.lean) is tied by the same run, not proved.",
+            "parsing (pest interpreter over the regenerated grammar + Asm/Parse.lean) is tied by the same run; about the parser model, C14_parse (no panic site for any text) and the text-level theorems of C02 / C03 are proved; C01_text restates the property for macro-free program TEXT (any layout, any operand expression of the C08 family).",
     "technique": "Lean 4 proof (prefix-sum layout invariant, stable width loop, refinement to a specification) + differential correspondence + probe/sentinel oracle",
 }
